@@ -140,6 +140,9 @@ func NewHarness(p Pop, seed bool) *Harness {
 	b.Clock.SetTime(h.T0)
 	b.Build = func(b *mc.Base) {
 		h.CronCtx = croncontroller.NewContext(b.Ctx)
+		// The worker hands requests to the recorder, nothing uses the controller's own
+		// workqueue here; stop its two background goroutines (one leaked pair per replay).
+		h.CronCtx.VerifQueue().ShutDown()
 		h.Worker = croncontroller.NewCronWorker(h.CronCtx, recorder{h})
 		iw := croncontroller.NewInformerWorker(h.CronCtx, croncontroller.NewUpdateHandler(h.CronCtx))
 		iw.Init()
